@@ -350,6 +350,8 @@ class _Helper:
         self.mod, self.cls, self.node = mod, cls, node
         decos = [ast.unparse(d) for d in node.decorator_list]
         self.static = "staticmethod" in decos
+        self.tail_ok = False
+        self.raw_body: list[ast.stmt] = []
         self.ok = all(d in ("staticmethod",) for d in decos) and not node.args.vararg and not node.args.kwarg and not isinstance(node, ast.AsyncFunctionDef)
         body = [s for s in node.body if not (isinstance(s, ast.Expr) and isinstance(s.value, ast.Constant))]
         if len(body) == 1 and isinstance(body[0], ast.For) and not body[0].orelse and len(body[0].body) == 1 and isinstance(body[0].body[0], ast.Expr) \
@@ -371,6 +373,10 @@ class _Helper:
                 rv = f"{node.name.strip('_')}__result"
                 conv = _single_exit(body, rv) if self.ok else None
                 if conv is None:
+                    # returns the single-exit form cannot express (inside loops / try): the helper can still replace a `return helper(...)` of its caller
+                    # wholesale - its returns become the caller's
+                    self.tail_ok = self.ok
+                    self.raw_body = body
                     self.ok = False
                 else:
                     new_body, always = conv
@@ -613,7 +619,7 @@ class Inliner:
                                 and all(ast.unparse(d) == "staticmethod" for d in x.decorator_list):
                             self.helpers[(mod.name, node.name, x.name)] = _Helper(mod, node, x)
         # a helper name defined more than once in the package (overrides, homonyms) is not inlined
-        self.helpers = {k: h for k, h in self.helpers.items() if h.ok and defs.get(k[2], 0) == 1}
+        self.helpers = {k: h for k, h in self.helpers.items() if (h.ok or h.tail_ok) and defs.get(k[2], 0) == 1}
 
     def _ancestors(self, cname: str) -> set[str]:
         out, work = set(), [cname]
@@ -722,7 +728,7 @@ class Inliner:
                 if isinstance(s, ast.If):
                     tcall = s.test.operand if isinstance(s.test, ast.UnaryOp) and isinstance(s.test.op, ast.Not) else s.test
                     th = self._target(mod, cls, fn, tcall) if isinstance(tcall, ast.Call) else None
-                    if th is not None and th.node is not fn and th.ret is not None:
+                    if th is not None and th.ok and th.node is not fn and th.ret is not None:
                         self._uid += 1
                         tmp = f"{th.node.name.strip('_')}__value{self._uid}"
                         pre_stmt = ast.copy_location(ast.Assign(targets=[ast.Name(id=tmp, ctx=ast.Store())], value=tcall), s)
@@ -744,7 +750,7 @@ class Inliner:
                     # observed by it: `return table[_indices(table, values)]` reads as `t = _indices(table, values); return table[t]`
                     first = _first_evaluated_call(s.value)
                     nh = self._target(mod, cls, fn, first) if first is not None and first is not s.value else None
-                    if nh is not None and nh.node is not fn and nh.ret is not None and not nh.expr_helper \
+                    if nh is not None and nh.ok and nh.node is not fn and nh.ret is not None and not nh.expr_helper \
                             and not (isinstance(s, ast.AugAssign) and not isinstance(s.target, ast.Name)) \
                             and not (isinstance(s, ast.Assign) and not all(isinstance(t, ast.Name) for t in s.targets)):
                         self._uid += 1
@@ -757,6 +763,14 @@ class Inliner:
                             out.extend(rep)
                             changed = True
                             self.log.append(f"{mod.relpath}:{s.lineno} {fn.name}: inlined new helper {nh.node.name}() out of an expression")
+                if h is not None and not h.ok:
+                    rep = self._expand_tail(h, s, call, fn, caller_names) if isinstance(s, ast.Return) and h.node is not fn else None  # type: ignore[arg-type]
+                    if rep is not None:
+                        out.extend(rep)
+                        changed = True
+                        self.log.append(f"{mod.relpath}:{s.lineno} {fn.name}: `return {h.node.name}(...)` replaced by the helper's body (its returns are the caller's)")
+                        continue
+                    h = None
                 if h is not None and h.node is not fn:
                     rep = self._expand_stmt(h, s, call, fn, caller_names)  # type: ignore[arg-type]
                     if rep is not None:
@@ -839,6 +853,43 @@ class Inliner:
         caller_names.update(n.id for x in [*pre, *body] for n in ast.walk(x) if isinstance(n, ast.Name))
         _bring_names_along(self._cur_mod, h.mod, [*body, *tail])
         return [*pre, *body, *tail]
+
+    def _expand_tail(self, h: _Helper, s: ast.Return, call: ast.Call, fn: ast.FunctionDef, caller_names: set[str]) -> list[ast.stmt] | None:
+        b = _bind(h, call)
+        if b is None or not h.raw_body:
+            return None
+        self._uid += 1
+        uid = self._uid
+        mapping: dict[str, ast.expr] = {}
+        pre: list[ast.stmt] = []
+        if h.self_name is not None:
+            mapping[h.self_name] = call.func.value  # type: ignore[union-attr]
+        for p, arg in b.items():
+            loads, stored = _uses(h.raw_body, p)
+            if not stored and (_simple(arg) or loads <= 1) and not any(isinstance(x, (ast.For, ast.While)) for st in h.raw_body for x in ast.walk(st) if not _simple(arg)):
+                mapping[p] = arg
+            else:
+                fresh = f"{p}__{h.node.name.strip('_')}{uid}"
+                pre.append(ast.copy_location(ast.Assign(targets=[ast.Name(id=fresh, ctx=ast.Store())], value=_clone(arg)), s))
+                mapping[p] = ast.Name(id=fresh, ctx=ast.Load())
+        locs = {n.id for st in h.raw_body for n in ast.walk(st) if isinstance(n, ast.Name) and isinstance(n.ctx, ast.Store)}
+        for loc in locs:
+            if loc not in mapping and loc in caller_names:
+                mapping[loc] = ast.Name(id=f"{loc}__{h.node.name.strip('_')}{uid}", ctx=ast.Load())
+        sub = _Subst(mapping)
+        body = [sub.visit(_clone(x)) for x in h.raw_body]
+        for x in body:
+            for n in ast.walk(x):
+                if hasattr(n, "lineno"):
+                    n.lineno = s.lineno
+                    n.end_lineno = getattr(s, "end_lineno", s.lineno)
+        if not isinstance(body[-1], (ast.Return, ast.Raise)):
+            body.append(ast.copy_location(ast.Return(value=ast.Constant(value=None)), s))
+        for x in [*pre, *body]:
+            ast.fix_missing_locations(x)
+        caller_names.update(n.id for x in [*pre, *body] for n in ast.walk(x) if isinstance(n, ast.Name))
+        _bring_names_along(self._cur_mod, h.mod, body)
+        return [*pre, *body]
 
     def _inline_exprs(self, mod: Module, cls: ast.ClassDef | None, fn: ast.FunctionDef, s: ast.stmt) -> bool:
         outer = self
